@@ -21,7 +21,12 @@ use std::collections::BTreeSet;
 
 #[derive(Clone, Debug)]
 pub struct Case {
-    pub sdl: String,
+    /// schema files (definitions and `extend …` items, possibly spread over several files)
+    pub sdl: Vec<String>,
+    /// the ABSTRACT merged schema the specification side (Exec / RefLocal) uses, as a `(tsdoc …)` line: for generated
+    /// cases the generator's own un-split model — independent of the real parser / extension resolver —, for
+    /// hand-written cases (None) the definitions read from the text and merged by `merge_extensions` below
+    pub abstract_schema: Option<String>,
     pub doc: String,
     pub config: String,
     /// documents that are NOT spec-valid (FieldsInSetCanMerge) but pass `check`: K only
@@ -30,11 +35,15 @@ pub struct Case {
 
 impl Case {
     pub fn to_json(&self) -> Value {
-        json!({"sdl": self.sdl, "doc": self.doc, "config": self.config, "invalid_by_merge_rule": self.invalid_by_merge_rule})
+        json!({"sdl_files": self.sdl, "abstract_schema": self.abstract_schema, "doc": self.doc, "config": self.config, "invalid_by_merge_rule": self.invalid_by_merge_rule})
     }
     pub fn from_json(v: &Value) -> Case {
         Case {
-            sdl: v["sdl"].as_str().unwrap_or("").to_string(),
+            sdl: match v["sdl_files"].as_array() {
+                Some(a) => a.iter().map(|x| x.as_str().unwrap_or("").to_string()).collect(),
+                None => vec![v["sdl"].as_str().unwrap_or("").to_string()],
+            },
+            abstract_schema: v["abstract_schema"].as_str().map(|s| s.to_string()),
             doc: v["doc"].as_str().unwrap_or("").to_string(),
             config: v["config"].as_str().unwrap_or(DEFAULT_CONFIG).to_string(),
             invalid_by_merge_rule: v["invalid_by_merge_rule"].as_bool().unwrap_or(false),
@@ -45,7 +54,10 @@ impl Case {
 pub const DEFAULT_CONFIG: &str = "schema: \"s.graphql\"\ndocuments: \"*.graphql\"\nextensions:\n  nitrogql:\n    generate:\n      mode: with-loader-ts-5.0\n";
 
 pub struct Prepared {
+    /// the REAL resolved schema document (the printer's actual input): K
     pub tsdoc: Sexp,
+    /// the ABSTRACT merged schema (not produced by the real pipeline): O
+    pub spec_tsdoc: Sexp,
     pub doc_model: Doc,
     pub doc: Sexp,
     pub opts: Sexp,
@@ -81,7 +93,17 @@ pub fn prepare(case: &Case) -> Prep {
         ],
     );
     let doc_text = case.doc.clone();
-    let r = with_schema(&[case.sdl.clone()], |resolved, schema| {
+    let spec_tsdoc = match &case.abstract_schema {
+        Some(t) => match Sexp::parse(t) {
+            Some(x) => x,
+            None => return Prep::Rejected("abstract schema does not parse".into()),
+        },
+        None => match abstract_from_text(&case.sdl) {
+            Ok(d) => d.to_sexp(),
+            Err(e) => return Prep::Rejected(e),
+        },
+    };
+    let r = with_schema(&case.sdl, |resolved, schema| {
         let tsdoc = from_real_tsdoc(resolved).to_sexp();
         let schema_text = print_schema_types(resolved, &config);
         let o = with_operation(schema, &doc_text, 1, |d, diags| {
@@ -119,7 +141,75 @@ pub fn prepare(case: &Case) -> Prep {
         Err(p) => Err(p),
     };
     let doc = doc_model.to_sexp();
-    Prep::Ready(Box::new(Prepared { tsdoc, doc_model, doc, opts, schema_ts, op_ts }))
+    Prep::Ready(Box::new(Prepared { tsdoc, spec_tsdoc, doc_model, doc, opts, schema_ts, op_ts }))
+}
+
+/// the five built-in scalars the specification side needs as leaf types (the abstract model does not list them)
+pub fn with_builtin_scalars(mut d: TsDoc) -> TsDoc {
+    for n in BUILTIN_SCALARS {
+        if d.type_def(n).is_none() {
+            d.items.push(TsItem::TypeDef(TypeDef::new(TypeKind::Scalar, n)));
+        }
+    }
+    d
+}
+
+/// Merge `extend …` items into their definitions — written for the specification side, independently of
+/// nitrogql's `resolve_schema_extensions`: every component list of an extension is appended to the definition of
+/// the same name; root operation types of `extend schema` are added to the schema definition.
+pub fn merge_extensions(d: &TsDoc) -> TsDoc {
+    let mut items: Vec<TsItem> = d.items.iter().filter(|i| !matches!(i, TsItem::TypeExt(_) | TsItem::SchemaExt(_))).cloned().collect();
+    for i in &d.items {
+        match i {
+            TsItem::TypeExt(e) => {
+                for t in items.iter_mut() {
+                    if let TsItem::TypeDef(t) = t {
+                        if t.name == e.name {
+                            t.implements.extend(e.implements.iter().cloned());
+                            t.dirs.extend(e.dirs.iter().cloned());
+                            t.fields.extend(e.fields.iter().cloned());
+                            t.members.extend(e.members.iter().cloned());
+                            t.values.extend(e.values.iter().cloned());
+                            t.inputs.extend(e.inputs.iter().cloned());
+                            break;
+                        }
+                    }
+                }
+            }
+            TsItem::SchemaExt(e) => {
+                let mut done = false;
+                for t in items.iter_mut() {
+                    if let TsItem::SchemaDef(sd) = t {
+                        sd.roots.extend(e.roots.iter().cloned());
+                        sd.dirs.extend(e.dirs.iter().cloned());
+                        done = true;
+                        break;
+                    }
+                }
+                if !done && !e.roots.is_empty() {
+                    items.push(TsItem::SchemaDef(e.clone()));
+                }
+            }
+            _ => {}
+        }
+    }
+    TsDoc { items }
+}
+
+/// abstract schema of a hand-written case: the definitions and extensions as the parser reads them from the text
+/// (nothing downstream of the parser), merged by `merge_extensions`
+pub fn abstract_from_text(files: &[String]) -> Result<TsDoc, String> {
+    let mut items = vec![];
+    for f in files {
+        let text = f.clone();
+        let d = catch(move || nitrogql_parser::parse_type_system_document(&text).map(|d| from_real_tsdoc_ext(&d)).map_err(|e| format!("{e:?}")));
+        match d {
+            Ok(Ok(d)) => items.extend(d.items),
+            Ok(Err(e)) => return Err(format!("schema text does not parse: {e}").chars().take(120).collect()),
+            Err(p) => return Err(format!("schema parser panicked: {p}").chars().take(120).collect()),
+        }
+    }
+    Ok(with_builtin_scalars(merge_extensions(&TsDoc { items })))
 }
 
 fn panic_kind(msg: &str) -> &'static str {
@@ -209,7 +299,7 @@ pub fn k_compare(p: &Prepared, ans: &Sexp) -> Option<(String, String)> {
 
 pub fn o_request(p: &Prepared, which: &str, cap: usize) -> Option<Sexp> {
     match &p.op_ts {
-        Ok((_, op_ts)) => Some(Sexp::call(which, vec![p.tsdoc.clone(), p.doc.clone(), op_ts.clone(), p.schema_ts.clone(), Sexp::int(cap as i128)])),
+        Ok((_, op_ts)) => Some(Sexp::call(which, vec![p.spec_tsdoc.clone(), p.doc.clone(), op_ts.clone(), p.schema_ts.clone(), Sexp::int(cap as i128)])),
         Err(_) => None,
     }
 }
@@ -758,7 +848,23 @@ pub fn corpus() -> Vec<Case> {
         ("query Q { me { id id2: id name } me2: me { id } }", false),
     ];
     docs.into_iter()
-        .map(|(d, inv)| Case { sdl: CORPUS_SDL.into(), doc: d.into(), config: CORPUS_CONFIG.into(), invalid_by_merge_rule: inv })
+        .map(|(d, inv)| Case { sdl: vec![CORPUS_SDL.into()], abstract_schema: None, doc: d.into(), config: CORPUS_CONFIG.into(), invalid_by_merge_rule: inv })
+        .chain(ext_corpus())
+        .collect()
+}
+
+/// schemas whose types join interfaces / gain fields and union members ONLY through `extend …` items, over two files
+fn ext_corpus() -> Vec<Case> {
+    let f1 = "type Query { node: Node, nodes: [Node!]!, search: [SearchResult!] }\ninterface Node { id: ID! }\ntype User implements Node { id: ID!, name: String! }\ntype Post { id: ID!, title: String }\nunion SearchResult = User\n";
+    let f2 = "extend type Post implements Node\nextend type Post { author: User }\nextend union SearchResult = Post\nextend interface Node { label: String }\nextend type User { label: String }\nextend type Post { label: String }\n";
+    let docs = [
+        "query Q { node { __typename id } }",
+        "query Q { nodes { id label ... on Post { title author { name } } ... on User { name } } }",
+        "query Q { search { __typename ... on Post { title } ... on Node { id } } }",
+        "fragment F on Node { id label } query Q { node { ...F } }",
+    ];
+    docs.iter()
+        .map(|d| Case { sdl: vec![f1.into(), f2.into()], abstract_schema: None, doc: d.to_string(), config: DEFAULT_CONFIG.into(), invalid_by_merge_rule: false })
         .collect()
 }
 
@@ -822,7 +928,35 @@ pub fn gen_case(rng: &mut Rng, rep: &mut Report) -> Case {
         pc.extra_generate_lines.push(format!("        operationResultType: {}", rng.coin()));
         rep.count("feature:config-export");
     }
-    Case { sdl: schema.sdl(), doc: doc_text(&doc), config: pc.yaml("s.graphql", "*.graphql", &[]), invalid_by_merge_rule: false }
+    // the schema text the REAL pipeline reads: in about half of the cases components (fields, enum values, union
+    // members, `implements` lists, directives) are moved into `extend …` items, optionally over two files
+    let sdl = if rng.coin() {
+        let split = split_into_extensions(rng, &schema);
+        rep.count("feature:schema-with-extensions");
+        if split.items.iter().any(|i| matches!(i, TsItem::TypeExt(e) if !e.implements.is_empty())) {
+            rep.count("feature:schema-extension-implements");
+        }
+        if rng.coin() {
+            rep.count("feature:schema-in-two-files");
+            let mut a = vec![];
+            let mut b = vec![];
+            for it in split.items {
+                if rng.coin() {
+                    a.push(it);
+                } else {
+                    b.push(it);
+                }
+            }
+            vec![nvh::render::tsdoc_text(&TsDoc { items: a }), nvh::render::tsdoc_text(&TsDoc { items: b })]
+        } else {
+            vec![nvh::render::tsdoc_text(&split)]
+        }
+    } else {
+        vec![schema.sdl()]
+    };
+    // the schema the SPECIFICATION side uses: the generator's own merged model, never the real pipeline's output
+    let abstract_schema = Some(with_builtin_scalars(schema.doc.clone()).to_sexp().to_line());
+    Case { sdl, abstract_schema, doc: doc_text(&doc), config: pc.yaml("s.graphql", "*.graphql", &[]), invalid_by_merge_rule: false }
 }
 
 fn first_op_sel<'a>(doc: &'a mut Doc) -> Option<(&'a mut OpDef, String)> {
@@ -942,10 +1076,10 @@ pub fn main_for(property: &str, which: &'static str) {
         for i in 0..n {
             let c = gen_case(&mut rng, r.rep);
             if nontrivial(&c.doc) {
-                r.rep.nontrivial(&format!("{}\n{}", c.sdl, c.doc));
+                r.rep.nontrivial(&format!("{}\n{}", c.sdl.join("\n"), c.doc));
             }
             if i < 3 {
-                r.rep.sample(json!({"doc": c.doc, "sdl_bytes": c.sdl.len()}));
+                r.rep.sample(json!({"doc": c.doc, "schema_files": c.sdl.len(), "sdl_bytes": c.sdl.iter().map(|s| s.len()).sum::<usize>()}));
             }
             batch.push(c);
             if batch.len() >= 50 {
